@@ -6,10 +6,13 @@ CONSTANTS
   Prefixes = {"", "cls"}
   RuleSets <- RuleSetsQuick
   DefaultKinds = {"det", "dyn"}
+  DetRuleSets <- RuleSetsQuick
   Encs = {"msgpack"}
+  Auths = {"ok"}
   WithReload = FALSE
+  Faithful = FALSE
   UpperHexIsClassic = TRUE
-INVARIANTS TypeOK EnvKeyUsesEnvironment ClassicKeyUsesDataset DocumentedShapes NeverWithoutSampler PrefixSeparates ExtractedIsWhatDeciderReads DecisionOfOneTarget
+INVARIANTS TypeOK EnvKeyUsesEnvironment ClassicKeyUsesDataset DocumentedShapes NeverWithoutSampler PrefixSeparates ExtractedIsWhatDeciderReads DecisionOfOneTarget NoUnknownEnvironmentIngested
 PROPERTY DecisionFollowsRules
 ACTION_CONSTRAINT Dump
 VIEW View
